@@ -78,6 +78,35 @@ def win_overlap_files():
     return [("MODULE Linux x86 ABC name\n" + "\n".join(t) + "\nFILE 5 after\n").encode() for t in out]
 
 
+def truncated_keyword_files():
+    """Truncated records: every prefix of every record keyword, with and without the trailing space, as a whole line - ended by
+    LF / CRLF / nothing - placed as the LAST line of the file and as the last complete line in front of an unterminated tail
+    (so that it is the last thing parse_more sees in its window), at top level and while a FUNC / STACK CFI INIT group is open.
+    No verdict on the result (most are parse errors): the parse must return, never panic (class of seeded C09-9)."""
+    kws = ["MODULE", "INFO", "INFO URL", "FILE", "INLINE_ORIGIN", "INLINE", "PUBLIC", "FUNC", "STACK", "STACK WIN", "STACK CFI",
+           "STACK CFI INIT"]
+    lines = []
+    for kw in kws:
+        for n in range(1, len(kw) + 1):
+            for sp in ("", " "):
+                ln = kw[:n] + sp
+                if ln not in lines:
+                    lines.append(ln)
+    heads = ["MODULE Linux x86 ABC name\n", "MODULE Linux x86 ABC name\nFUNC 1000 10 0 f\n1000 4 1 1\n",
+             "MODULE Linux x86 ABC name\nSTACK CFI INIT 1000 10 .cfa: $esp 4 +\n"]
+    tail = "FILE 7 " + "u" * 300          # unterminated: never parsed, keeps the truncated line the last complete one
+    out = []
+    for ln in lines:
+        for head in heads:
+            out.append(head + ln + "\n")
+            out.append(head + ln + "\n" + tail)
+        out.append(heads[0] + ln + "\r\n")
+        out.append(heads[0] + ln + "\r\n" + tail)
+        out.append(heads[0] + ln)
+        out.append(ln + "\n")               # as the very first line
+    return [t.encode() for t in out]
+
+
 def kept_long_files(rng):
     """(file, schedule, number of FILE records): valid files with one long FILE record whose line (with its newline) has at most
     81920 bytes - never "over-long": the code documents "at least 80KB symbol names", and the model proves that only lines
@@ -213,6 +242,9 @@ class C09(PropBase):
         # 2b"-win. STACK WIN records of one kind with identical / same-start / nested / overlapping / touching / disjoint ranges
         for data in win_overlap_files():
             add("win-overlap", data, tag="ok")
+        # 2b"-trunc. every prefix of every record keyword as the last (complete) line: must not panic (class of seeded C09-9)
+        for data in truncated_keyword_files():
+            add("trunc-keyword", data)
         # 2b"'. a long but not over-long record (line <= 80 KiB) is never dropped: all FILE records must be in the table
         for data, sched, nfiles in kept_long_files(rng):
             add("kept-long", data, sched, tag="keep%d" % nfiles)
